@@ -115,29 +115,29 @@ def render (sty : Sty) : List Nat → Tree → List Token
 def text (ts : List Token) : List Char := ts.flatMap (·.text)
 
 /-! ### well-formed trees -/
-def okTok (rules : List (Kind × Regex)) (k : Kind) (s : String) : Bool :=
-  canonB rules (tkS k s) && (k != STRING || extClosed rules s.toList)
+def okTok (rules : List (Kind × Regex)) (cl : List Char → Bool) (k : Kind) (s : String) : Bool :=
+  canonB rules (tkS k s) && (k != STRING || cl s.toList)
 
-def wfPath (rules : List (Kind × Regex)) (p : List String) : Bool := !p.isEmpty && p.all (okTok rules ATTR)
+def wfPath (rules : List (Kind × Regex)) (cl : List Char → Bool) (p : List String) : Bool := !p.isEmpty && p.all (okTok rules cl ATTR)
 
-def wfLit (rules : List (Kind × Regex)) : Lit → Bool
-  | .bool t => okTok rules BOOLEAN t
+def wfLit (rules : List (Kind × Regex)) (cl : List Char → Bool) : Lit → Bool
+  | .bool t => okTok rules cl BOOLEAN t
   | .null => true
-  | .version t => okTok rules VERSION t
-  | .str t => okTok rules STRING t
-  | .double t => okTok rules DOUBLE t
-  | .long neg i e => !neg && e.isNone && okTok rules INT i
-  | .list k xs => (k == INT || k == DOUBLE || k == STRING) && !xs.isEmpty && xs.all (okTok rules k)
+  | .version t => okTok rules cl VERSION t
+  | .str t => okTok rules cl STRING t
+  | .double t => okTok rules cl DOUBLE t
+  | .long neg i e => !neg && e.isNone && okTok rules cl INT i
+  | .list k xs => (k == INT || k == DOUBLE || k == STRING) && !xs.isEmpty && xs.all (okTok rules cl k)
 
 def isPrimary : Tree → Bool
   | .logical .. => false
   | _ => true
 
-def wf (rules : List (Kind × Regex)) : Tree → Bool
-  | .paren _ q => wf rules q
-  | .logical op l r => okTok rules LOGOP op && wf rules l && wf rules r && isPrimary r
-  | .present p => wfPath rules p
-  | .compare p k v => wfPath rules p && isCmp k && wfLit rules v
+def wf (rules : List (Kind × Regex)) (cl : List Char → Bool) : Tree → Bool
+  | .paren _ q => wf rules cl q
+  | .logical op l r => okTok rules cl LOGOP op && wf rules cl l && wf rules cl r && isPrimary r
+  | .present p => wfPath rules cl p
+  | .compare p k v => wfPath rules cl p && isCmp k && wfLit rules cl v
 
 /-! ### the rendering derives the tree -/
 theorem renderPath_D : ∀ (p : List String), p ≠ [] → DPath ((renderPath p).map toTok) p
@@ -155,7 +155,7 @@ theorem renderElems_D (sty : Sty) (pos : List Nat) (k : Kind) : ∀ (xs : List S
     have ih := renderElems_D sty pos k (y :: rest) (by simp)
     simpa [renderElems, toTok_tkS] using DList.cons (k := k) x _ ih
 
-theorem renderLit_D (rules : List (Kind × Regex)) (sty : Sty) (pos : List Nat) (v : Lit) (h : wfLit rules v = true) :
+theorem renderLit_D (rules : List (Kind × Regex)) (cl : List Char → Bool) (sty : Sty) (pos : List Nat) (v : Lit) (h : wfLit rules cl v = true) :
     DValue ((renderLit sty pos v).map toTok) v := by
   cases v with
   | bool t => simpa [renderLit, toTok_tkS] using DValue.bool t
@@ -178,12 +178,12 @@ theorem renderLit_D (rules : List (Kind × Regex)) (sty : Sty) (pos : List Nat) 
       · exact .inr (.inr h1)
     simpa [renderLit, toTok_tkS] using DValue.list k hk' "[" (renderElems_D sty pos k xs hne)
 
-theorem wfPath_ne (rules : List (Kind × Regex)) (p : List String) (h : wfPath rules p = true) : p ≠ [] := by
+theorem wfPath_ne (rules : List (Kind × Regex)) (cl : List Char → Bool) (p : List String) (h : wfPath rules cl p = true) : p ≠ [] := by
   simp only [wfPath, Bool.and_eq_true, Bool.not_eq_true', List.isEmpty_eq_false_iff] at h
   exact h.1
 
 /-- primaries derive as `D true`, every well-formed tree as `D false` -/
-theorem render_D (rules : List (Kind × Regex)) (sty : Sty) : ∀ (t : Tree) (pos : List Nat), wf rules t = true →
+theorem render_D (rules : List (Kind × Regex)) (cl : List Char → Bool) (sty : Sty) : ∀ (t : Tree) (pos : List Nat), wf rules cl t = true →
     D false ((render sty pos t).map toTok) t ∧ (isPrimary t = true → D true ((render sty pos t).map toTok) t) := by
   intro t
   induction t with
@@ -213,7 +213,7 @@ theorem render_D (rules : List (Kind × Regex)) (sty : Sty) : ∀ (t : Tree) (po
     simp only [wf] at h
     have key : D true ((render sty pos (.present p)).map toTok) (.present p) := by
       simp only [render, List.map_append, List.map_cons, List.map_nil, spTok, toTok_tkS]
-      exact D.present _ "pr" (renderPath_D p (wfPath_ne rules p h))
+      exact D.present _ "pr" (renderPath_D p (wfPath_ne rules cl p h))
     exact ⟨D.prim key, fun _ => key⟩
   | compare p k v =>
     intro pos h
@@ -221,19 +221,19 @@ theorem render_D (rules : List (Kind × Regex)) (sty : Sty) : ∀ (t : Tree) (po
     obtain ⟨⟨hp, hk⟩, hv⟩ := h
     have key : D true ((render sty pos (.compare p k v)).map toTok) (.compare p k v) := by
       simp only [render, List.map_append, List.map_cons, List.map_nil, spTok, toTok_tkS]
-      exact D.compare _ _ _ k hk (renderPath_D p (wfPath_ne rules p hp)) (renderLit_D rules sty pos v hv)
+      exact D.compare _ _ _ k hk (renderPath_D p (wfPath_ne rules cl p hp)) (renderLit_D rules cl sty pos v hv)
     exact ⟨D.prim key, fun _ => key⟩
 
 /-! ### every rendered token meets the per-token conditions -/
-def TokGood (rules : List (Kind × Regex)) (x : Token) : Prop :=
-  Canon rules x ∧ (x.kind = STRING → extClosed rules x.text = true) ∧ x.kind ≠ MINUS ∧ x.kind ≠ EXP
+def TokGood (rules : List (Kind × Regex)) (cl : List Char → Bool) (x : Token) : Prop :=
+  Canon rules x ∧ (x.kind = STRING → cl x.text = true) ∧ x.kind ≠ MINUS ∧ x.kind ≠ EXP
 
-theorem good_spelling (rules : List (Kind × Regex)) (h : spellOK rules = true) (k : Kind) (s : String)
-    (hm : (k, s) ∈ allSpellings) (hk : k ≠ STRING ∧ k ≠ MINUS ∧ k ≠ EXP) : TokGood rules (tkS k s) :=
+theorem good_spelling (rules : List (Kind × Regex)) (cl : List Char → Bool) (h : spellOK rules = true) (k : Kind) (s : String)
+    (hm : (k, s) ∈ allSpellings) (hk : k ≠ STRING ∧ k ≠ MINUS ∧ k ≠ EXP) : TokGood rules cl (tkS k s) :=
   ⟨spell_canon rules h k s hm, fun e => absurd e hk.1, hk.2.1, hk.2.2⟩
 
-theorem good_okTok (rules : List (Kind × Regex)) (k : Kind) (s : String) (h : okTok rules k s = true)
-    (hk : k ≠ MINUS ∧ k ≠ EXP) : TokGood rules (tkS k s) := by
+theorem good_okTok (rules : List (Kind × Regex)) (cl : List Char → Bool) (k : Kind) (s : String) (h : okTok rules cl k s = true)
+    (hk : k ≠ MINUS ∧ k ≠ EXP) : TokGood rules cl (tkS k s) := by
   simp only [okTok, Bool.and_eq_true, Bool.or_eq_true, bne_iff_ne, ne_eq] at h
   refine ⟨canon_of_canonB rules _ h.1, ?_, hk.1, hk.2⟩
   intro e
@@ -246,18 +246,18 @@ theorem sp_mem (c : Nat) : (SP, pickL spSpell c) ∈ allSpellings := by
   simp only [allSpellings, List.mem_append, List.mem_map]
   exact .inl (.inl (.inl (.inl ⟨_, this, rfl⟩)))
 
-theorem good_sp (rules : List (Kind × Regex)) (h : spellOK rules = true) (c : Nat) : TokGood rules (spTok c) :=
-  good_spelling rules h SP _ (sp_mem c) (by decide)
+theorem good_sp (rules : List (Kind × Regex)) (cl : List Char → Bool) (h : spellOK rules = true) (c : Nat) : TokGood rules cl (spTok c) :=
+  good_spelling rules cl h SP _ (sp_mem c) (by decide)
 
-theorem good_optSp (rules : List (Kind × Regex)) (h : spellOK rules = true) (c : Nat) :
-    ∀ x ∈ optToks SP (optSp c), TokGood rules x := by
+theorem good_optSp (rules : List (Kind × Regex)) (cl : List Char → Bool) (h : spellOK rules = true) (c : Nat) :
+    ∀ x ∈ optToks SP (optSp c), TokGood rules cl x := by
   intro x hx
   unfold optSp at hx
   split at hx
   · simp [optToks] at hx
   · simp only [optToks, Option.toList_some, List.map_cons, List.map_nil, List.mem_singleton] at hx
     subst hx
-    exact good_spelling rules h SP _ (sp_mem _) (by decide)
+    exact good_spelling rules cl h SP _ (sp_mem _) (by decide)
 
 theorem fixed_mem (k : Kind) (s : String)
     (h : (k, s) ∈ [(LP, "("), (RP, ")"), (LB, "["), (RB, "]"), (DOT, "."), (PR, "pr"), (NULL, "null")]) :
@@ -265,62 +265,62 @@ theorem fixed_mem (k : Kind) (s : String)
   simp only [allSpellings, List.mem_append]
   exact .inr h
 
-theorem good_path (rules : List (Kind × Regex)) (hsp : spellOK rules = true) : ∀ (p : List String),
-    p.all (okTok rules ATTR) = true → ∀ x ∈ renderPath p, TokGood rules x
+theorem good_path (rules : List (Kind × Regex)) (cl : List Char → Bool) (hsp : spellOK rules = true) : ∀ (p : List String),
+    p.all (okTok rules cl ATTR) = true → ∀ x ∈ renderPath p, TokGood rules cl x
   | [], _ => by simp [renderPath]
   | [n], h => by
     intro x hx
     simp only [renderPath, List.mem_singleton] at hx
     subst hx
-    exact good_okTok rules ATTR n (by simpa using h) (by decide)
+    exact good_okTok rules cl ATTR n (by simpa using h) (by decide)
   | n :: m :: rest, h => by
     intro x hx
     simp only [List.all_cons, Bool.and_eq_true] at h
     simp only [renderPath, List.mem_cons] at hx
     rcases hx with hx | hx | hx
-    · subst hx; exact good_okTok rules ATTR n h.1 (by decide)
-    · subst hx; exact good_spelling rules hsp DOT "." (fixed_mem _ _ (by decide)) (by decide)
-    · exact good_path rules hsp (m :: rest) (by simpa using h.2) x hx
+    · subst hx; exact good_okTok rules cl ATTR n h.1 (by decide)
+    · subst hx; exact good_spelling rules cl hsp DOT "." (fixed_mem _ _ (by decide)) (by decide)
+    · exact good_path rules cl hsp (m :: rest) (by simpa using h.2) x hx
 
 theorem comma_mem (c : Nat) : (COMMA, pickL commaSpell c) ∈ allSpellings := by
   have := pickL_mem commaSpell c (by decide)
   simp only [allSpellings, List.mem_append, List.mem_map]
   exact .inl (.inl (.inr ⟨_, this, rfl⟩))
 
-theorem good_elems (rules : List (Kind × Regex)) (hsp : spellOK rules = true) (sty : Sty) (pos : List Nat) (k : Kind)
-    (hk : k ≠ MINUS ∧ k ≠ EXP) : ∀ (xs : List String), xs.all (okTok rules k) = true →
-    ∀ x ∈ renderElems sty pos k xs, TokGood rules x
+theorem good_elems (rules : List (Kind × Regex)) (cl : List Char → Bool) (hsp : spellOK rules = true) (sty : Sty) (pos : List Nat) (k : Kind)
+    (hk : k ≠ MINUS ∧ k ≠ EXP) : ∀ (xs : List String), xs.all (okTok rules cl k) = true →
+    ∀ x ∈ renderElems sty pos k xs, TokGood rules cl x
   | [], _ => by simp [renderElems]
   | [a], h => by
     intro x hx
     simp only [renderElems, List.mem_cons, List.mem_singleton, List.not_mem_nil, or_false] at hx
     rcases hx with hx | hx
-    · subst hx; exact good_okTok rules k a (by simpa using h) hk
-    · subst hx; exact good_spelling rules hsp RB "]" (fixed_mem _ _ (by decide)) (by decide)
+    · subst hx; exact good_okTok rules cl k a (by simpa using h) hk
+    · subst hx; exact good_spelling rules cl hsp RB "]" (fixed_mem _ _ (by decide)) (by decide)
   | a :: b :: rest, h => by
     intro x hx
     simp only [List.all_cons, Bool.and_eq_true] at h
     simp only [renderElems, List.mem_cons] at hx
     rcases hx with hx | hx | hx
-    · subst hx; exact good_okTok rules k a h.1 hk
-    · subst hx; exact good_spelling rules hsp COMMA _ (comma_mem _) (by decide)
-    · exact good_elems rules hsp sty pos k hk (b :: rest) (by simpa using h.2) x hx
+    · subst hx; exact good_okTok rules cl k a h.1 hk
+    · subst hx; exact good_spelling rules cl hsp COMMA _ (comma_mem _) (by decide)
+    · exact good_elems rules cl hsp sty pos k hk (b :: rest) (by simpa using h.2) x hx
 
-theorem good_lit (rules : List (Kind × Regex)) (hsp : spellOK rules = true) (sty : Sty) (pos : List Nat) (v : Lit)
-    (h : wfLit rules v = true) : ∀ x ∈ renderLit sty pos v, TokGood rules x := by
+theorem good_lit (rules : List (Kind × Regex)) (cl : List Char → Bool) (hsp : spellOK rules = true) (sty : Sty) (pos : List Nat) (v : Lit)
+    (h : wfLit rules cl v = true) : ∀ x ∈ renderLit sty pos v, TokGood rules cl x := by
   intro x hx
   cases v with
-  | bool t => simp only [renderLit, List.mem_singleton] at hx; subst hx; exact good_okTok rules _ _ h (by decide)
+  | bool t => simp only [renderLit, List.mem_singleton] at hx; subst hx; exact good_okTok rules cl _ _ h (by decide)
   | null =>
     simp only [renderLit, List.mem_singleton] at hx; subst hx
-    exact good_spelling rules hsp NULL "null" (fixed_mem _ _ (by decide)) (by decide)
-  | version t => simp only [renderLit, List.mem_singleton] at hx; subst hx; exact good_okTok rules _ _ h (by decide)
-  | str t => simp only [renderLit, List.mem_singleton] at hx; subst hx; exact good_okTok rules _ _ h (by decide)
-  | double t => simp only [renderLit, List.mem_singleton] at hx; subst hx; exact good_okTok rules _ _ h (by decide)
+    exact good_spelling rules cl hsp NULL "null" (fixed_mem _ _ (by decide)) (by decide)
+  | version t => simp only [renderLit, List.mem_singleton] at hx; subst hx; exact good_okTok rules cl _ _ h (by decide)
+  | str t => simp only [renderLit, List.mem_singleton] at hx; subst hx; exact good_okTok rules cl _ _ h (by decide)
+  | double t => simp only [renderLit, List.mem_singleton] at hx; subst hx; exact good_okTok rules cl _ _ h (by decide)
   | long neg i e =>
     simp only [wfLit, Bool.and_eq_true] at h
     simp only [renderLit, List.mem_singleton] at hx; subst hx
-    exact good_okTok rules _ _ h.2 (by decide)
+    exact good_okTok rules cl _ _ h.2 (by decide)
   | list k xs =>
     simp only [wfLit, Bool.and_eq_true, Bool.or_eq_true, beq_iff_eq] at h
     obtain ⟨⟨hk, _⟩, hall⟩ := h
@@ -328,8 +328,8 @@ theorem good_lit (rules : List (Kind × Regex)) (hsp : spellOK rules = true) (st
       rcases hk with (h1 | h1) | h1 <;> subst h1 <;> decide
     simp only [renderLit, List.mem_cons] at hx
     rcases hx with hx | hx
-    · subst hx; exact good_spelling rules hsp LB "[" (fixed_mem _ _ (by decide)) (by decide)
-    · exact good_elems rules hsp sty pos k hk' xs hall x hx
+    · subst hx; exact good_spelling rules cl hsp LB "[" (fixed_mem _ _ (by decide)) (by decide)
+    · exact good_elems rules cl hsp sty pos k hk' xs hall x hx
 
 theorem cmp_mem (k : Nat) (hk : isCmp k = true) (c : Nat) : (k, pickL (cmpSpell k) c) ∈ allSpellings := by
   have hk' : 12 ≤ k ∧ k ≤ 21 := by simpa [isCmp] using hk
@@ -347,8 +347,8 @@ theorem not_mem (c : Nat) : (NOT, pickL notSpell c) ∈ allSpellings := by
   simp only [allSpellings, List.mem_append, List.mem_map]
   exact .inl (.inl (.inl (.inr ⟨_, this, rfl⟩)))
 
-theorem render_good (rules : List (Kind × Regex)) (hsp : spellOK rules = true) (sty : Sty) : ∀ (t : Tree) (pos : List Nat),
-    wf rules t = true → ∀ x ∈ render sty pos t, TokGood rules x := by
+theorem render_good (rules : List (Kind × Regex)) (cl : List Char → Bool) (hsp : spellOK rules = true) (sty : Sty) : ∀ (t : Tree) (pos : List Nat),
+    wf rules cl t = true → ∀ x ∈ render sty pos t, TokGood rules cl x := by
   intro t
   induction t with
   | paren neg q ih =>
@@ -361,15 +361,15 @@ theorem render_good (rules : List (Kind × Regex)) (hsp : spellOK rules = true) 
       | true =>
         simp only [optToks, if_true, Option.toList_some, List.map_cons, List.map_nil, List.mem_singleton] at hx
         subst hx
-        exact good_spelling rules hsp NOT _ (not_mem _) (by decide)
+        exact good_spelling rules cl hsp NOT _ (not_mem _) (by decide)
     · cases neg with
       | false => simp [optToks] at hx
-      | true => exact good_optSp rules hsp _ x (by simpa using hx)
-    · subst hx; exact good_spelling rules hsp LP "(" (fixed_mem _ _ (by decide)) (by decide)
-    · exact good_optSp rules hsp _ x hx
+      | true => exact good_optSp rules cl hsp _ x (by simpa using hx)
+    · subst hx; exact good_spelling rules cl hsp LP "(" (fixed_mem _ _ (by decide)) (by decide)
+    · exact good_optSp rules cl hsp _ x hx
     · exact ih (9 :: pos) h x hx
-    · exact good_optSp rules hsp _ x hx
-    · subst hx; exact good_spelling rules hsp RP ")" (fixed_mem _ _ (by decide)) (by decide)
+    · exact good_optSp rules cl hsp _ x hx
+    · subst hx; exact good_spelling rules cl hsp RP ")" (fixed_mem _ _ (by decide)) (by decide)
   | logical op l r ihl ihr =>
     intro pos h x hx
     simp only [wf, Bool.and_eq_true] at h
@@ -377,18 +377,18 @@ theorem render_good (rules : List (Kind × Regex)) (hsp : spellOK rules = true) 
     simp only [render, List.mem_append, List.mem_cons, List.not_mem_nil, or_false] at hx
     rcases hx with (hx | hx | hx | hx) | hx
     · exact ihl (8 :: pos) hl x hx
-    · subst hx; exact good_sp rules hsp _
-    · subst hx; exact good_okTok rules LOGOP op ho (by decide)
-    · subst hx; exact good_sp rules hsp _
+    · subst hx; exact good_sp rules cl hsp _
+    · subst hx; exact good_okTok rules cl LOGOP op ho (by decide)
+    · subst hx; exact good_sp rules cl hsp _
     · exact ihr (9 :: pos) hr x hx
   | present p =>
     intro pos h x hx
     simp only [wf, wfPath, Bool.and_eq_true] at h
     simp only [render, List.mem_append, List.mem_cons, List.not_mem_nil, or_false] at hx
     rcases hx with hx | hx | hx
-    · exact good_path rules hsp p h.2 x hx
-    · subst hx; exact good_sp rules hsp _
-    · subst hx; exact good_spelling rules hsp PR "pr" (fixed_mem _ _ (by decide)) (by decide)
+    · exact good_path rules cl hsp p h.2 x hx
+    · subst hx; exact good_sp rules cl hsp _
+    · subst hx; exact good_spelling rules cl hsp PR "pr" (fixed_mem _ _ (by decide)) (by decide)
   | compare p k v =>
     intro pos h x hx
     simp only [wf, wfPath, Bool.and_eq_true] at h
@@ -398,32 +398,32 @@ theorem render_good (rules : List (Kind × Regex)) (hsp : spellOK rules = true) 
       refine ⟨?_, ?_, ?_⟩ <;> (intro e; subst e; revert hk; decide)
     simp only [render, List.mem_append, List.mem_cons, List.not_mem_nil, or_false] at hx
     rcases hx with (hx | hx | hx | hx) | hx
-    · exact good_path rules hsp p hp x hx
-    · subst hx; exact good_sp rules hsp _
-    · subst hx; exact good_spelling rules hsp k _ (cmp_mem k hk _) hk3
-    · subst hx; exact good_sp rules hsp _
-    · exact good_lit rules hsp sty pos v hv x hx
+    · exact good_path rules cl hsp p hp x hx
+    · subst hx; exact good_sp rules cl hsp _
+    · subst hx; exact good_spelling rules cl hsp k _ (cmp_mem k hk _) hk3
+    · subst hx; exact good_sp rules cl hsp _
+    · exact good_lit rules cl hsp sty pos v hv x hx
 
 /-! ### the theorems -/
 
 /-- **Every rendering of a well-formed rule is read back as that rule.** -/
 theorem C15_render (rules : List (Kind × Regex)) (htab : adjTableOK rules = true) (hsp : spellOK rules = true)
-    (t : Tree) (h : wf rules t = true) (sty : Sty) :
+    (t : Tree) (h : wf rules (extClosed rules) t = true) (sty : Sty) :
     lexParse rules (text (render sty [] t)) = some t := by
-  have hd := (render_D rules sty t [] h).1
-  have hg := render_good rules hsp sty t [] h
+  have hd := (render_D rules (extClosed rules) sty t [] h).1
+  have hg := render_good rules (extClosed rules) hsp sty t [] h
   exact lexParse_tokens rules htab (render sty [] t) t hd (fun x hx => (hg x hx).1) (fun x hx => (hg x hx).2.1)
     (fun x hx => (hg x hx).2.2)
 
 /-- any two styles of one rule are read as the same tree … -/
 theorem C15_render_styles (rules : List (Kind × Regex)) (htab : adjTableOK rules = true) (hsp : spellOK rules = true)
-    (t : Tree) (h : wf rules t = true) (sty sty' : Sty) :
+    (t : Tree) (h : wf rules (extClosed rules) t = true) (sty sty' : Sty) :
     lexParse rules (text (render sty [] t)) = lexParse rules (text (render sty' [] t)) := by
   rw [C15_render rules htab hsp t h sty, C15_render rules htab hsp t h sty']
 
 /-- … and therefore have the same outcome – verdict or failure, diagnostic, Stringer calls – on every object -/
 theorem C15_render_process (rules : List (Kind × Regex)) (htab : adjTableOK rules = true) (hsp : spellOK rules = true)
-    (t : Tree) (h : wf rules t = true) (sty sty' : Sty) (lower : Bytes → Bytes) (item : List (Bytes × Value)) :
+    (t : Tree) (h : wf rules (extClosed rules) t = true) (sty sty' : Sty) (lower : Bytes → Bytes) (item : List (Bytes × Value)) :
     (lexParse rules (text (render sty [] t))).map (fun tr => processTree lower tr item) =
     (lexParse rules (text (render sty' [] t))).map (fun tr => processTree lower tr item) := by
   rw [C15_render_styles rules htab hsp t h sty sty']
@@ -432,7 +432,7 @@ theorem C15_render_process (rules : List (Kind × Regex)) (htab : adjTableOK rul
 theorem spell_table : spellOK Generated.lexerRules = true := by decide +kernel
 
 /-- … so for the shipped grammar: -/
-theorem C15_render_generated (t : Tree) (h : wf Generated.lexerRules t = true) (sty : Sty) :
+theorem C15_render_generated (t : Tree) (h : wf Generated.lexerRules (extClosed Generated.lexerRules) t = true) (sty : Sty) :
     lexParse Generated.lexerRules (text (render sty [] t)) = some t :=
   C15_render Generated.lexerRules adj_separated spell_table t h sty
 
@@ -446,7 +446,7 @@ def sample : Tree :=
     (.paren false (.logical "and" (.present ["x", "y"])
       (.paren true (.logical "or" (.compare ["v"] 17 (.version "1.2.3")) (.compare ["n"] 14 (.long false "42" none))))))
 
-example : wf Generated.lexerRules sample = true := by decide +kernel
+example : wf Generated.lexerRules (extClosed Generated.lexerRules) sample = true := by decide +kernel
 example : text (render (fun _ => 0) [] sample) ≠ text (render (fun p => p.length + 1) [] sample) := by decide +kernel
 example : lexParse Generated.lexerRules (text (render (fun p => 3 * p.length + p.headD 0) [] sample)) = some sample := by
   decide +kernel
